@@ -303,6 +303,9 @@ func (zp *ZoneParser) generated() bool {
 	return true
 }
 
+// subNext returns the next record of the sub parser. When that parser is
+// exhausted without an error it is dropped and subNext returns (nil, true):
+// the caller carries on with its own input.
 func (zp *ZoneParser) subNext() (RR, bool) {
 	if rr, ok := zp.sub.Next(); ok {
 		return rr, true
@@ -321,7 +324,7 @@ func (zp *ZoneParser) subNext() (RR, bool) {
 	}
 
 	zp.sub = nil
-	return zp.Next()
+	return nil, true
 }
 
 // Next advances the parser to the next RR in the zonefile and
@@ -330,11 +333,17 @@ func (zp *ZoneParser) subNext() (RR, bool) {
 // error. After Next returns (nil, false), the Err method will return
 // any error that occurred during parsing.
 func (zp *ZoneParser) Next() (RR, bool) {
+	// A directive that yields no record ($INCLUDE of an empty file, a
+	// $GENERATE that expands to directives) brings us back here without
+	// a call of our own: a long run of them must not grow the stack.
+again:
 	if zp.parseErr != nil {
 		return nil, false
 	}
 	if zp.sub != nil {
-		return zp.subNext()
+		if rr, ok := zp.subNext(); rr != nil || !ok {
+			return rr, ok
+		}
 	}
 
 	// 6 possible beginnings of a line (_ is a space):
@@ -496,7 +505,7 @@ func (zp *ZoneParser) Next() (RR, bool) {
 			zp.sub.defttl, zp.sub.includeDepth, zp.sub.r = zp.defttl, zp.includeDepth+1, r1
 			zp.sub.SetIncludeAllowed(true)
 			zp.sub.SetIncludeFS(zp.fsys)
-			return zp.subNext()
+			goto again
 		case zExpectDirTTLBl:
 			if l.value != zBlank {
 				return zp.setParseError("no blank after $TTL-directive", l)
@@ -557,7 +566,10 @@ func (zp *ZoneParser) Next() (RR, bool) {
 				return zp.setParseError("expecting $GENERATE value, not this...", l)
 			}
 
-			return zp.generate(l)
+			if rr, ok := zp.generate(l); rr != nil || !ok {
+				return rr, ok
+			}
+			goto again
 		case zExpectOwnerBl:
 			if l.value != zBlank {
 				return zp.setParseError("no blank after owner", l)
